@@ -93,9 +93,9 @@ def condvar_structs(F):
     return out
 
 
-def r2(R2, cfg, F):
-    structs = condvar_structs(F)
-    if not structs:
+def r2(R2, cfg, F, only_waits=False):
+    structs = [] if only_waits else condvar_structs(F)
+    if not structs and not only_waits:
         R2.missing(cfg, 'a struct pairing a Mutex with a Condvar (Answers)')
         return
     for sp, mxs, cvs in structs:
